@@ -664,7 +664,7 @@ func ruleContainerCodec(w *World, r *Recorder, rule string, json bool) {
 
 func checkC10(w *World, r *Recorder) propInfo {
 	info := propInfo{
-		Explanation: "Decided part (tables and shapes that determine the emitted map): W1/W2 the cbor struct tags of P1Claims, P2Claims and SwComponent carry exactly the profile's integer keys (P1 −75000…−75010, P2 {10,256,265,2394…2400}, component {1,2,4,5,6}), all keyasint, pairwise distinct, no toarray, no other field on the wire, with the Go type of the specified wire kind (int32 / uint16 / byte string / text / eat.Nonce / eat.UEID / eat.Profile / component container); W3 every optional claim has omitempty and is pointer- or interface-kinded, so an absent optional claim is omitted rather than null; W4 the EncOptions literal forbids indefinite lengths and leaves every other option at the library default; the shared modes are written only by the initialiser; W5 profile 1's MarshalCBOR encodes a copy in which only an empty component container is nilled (so list and flag cannot both appear: C01 rejects both-present, C11 keeps them exclusive); W6 profile 2's nonce is an eat.Nonce (a single entry encodes as a bare byte string per the pinned eat source), profile 1's a plain byte string; the component container encodes exactly its element slice. Not decided: the bytes the CBOR library produces for these tables (single definite-length map, no trailing bytes) — a library fact. W16: every value a setter stores into the object being set is the caller's argument or fresh memory, never mutable package-level memory (leak-site scan rooted at the setters).",
+		Explanation: "Decided part (tables and shapes that determine the emitted map): W1/W2 the cbor struct tags of P1Claims, P2Claims and SwComponent carry exactly the profile's integer keys (P1 −75000…−75010, P2 {10,256,265,2394…2400}, component {1,2,4,5,6}), all keyasint, pairwise distinct, no toarray, no other field on the wire, with the Go type of the specified wire kind (int32 / uint16 / byte string / text / eat.Nonce / eat.UEID / eat.Profile / component container); W3 every optional claim has omitempty and is pointer- or interface-kinded, so an absent optional claim is omitted rather than null; W4 the EncOptions literal forbids indefinite lengths and leaves every other option at the library default; the shared modes are written only by the initialiser; W5 profile 1's MarshalCBOR encodes a copy in which only an empty component container is nilled (so list and flag cannot both appear: C01 rejects both-present, C11 keeps them exclusive); W6 profile 2's nonce is an eat.Nonce (a single entry encodes as a bare byte string per the pinned eat source), profile 1's a plain byte string; the component container encodes exactly its element slice. Not decided: the bytes the CBOR library produces for these tables (single definite-length map, no trailing bytes) — a library fact. W16: every value a setter stores into the object being set is the caller's argument or fresh memory, never mutable package-level memory (leak-site scan rooted at the setters). W17: exactly one nonce entry validates (C01-R2 cells of the nonce getters), which the nonce codec emits as a bare byte string.",
 		Rule:        "one obligation per struct field / option literal / method",
 		Trusted:     []string{"go/types (struct tags via reflect.StructTag parsing)", "fxamacker/cbor v2.5.0 honours keyasint/omitempty and IndefLengthForbidden", "veraison/eat Nonce.MarshalCBOR encodes one entry as a bare bstr"},
 	}
